@@ -430,7 +430,7 @@ func (p *Prog) Roots() []*ssa.Function {
 		if fn.Parent() != nil || fn.Synthetic != "" && fn.Name() != "init" {
 			continue
 		}
-		if ast.IsExported(fn.Name()) || fn.Name() == "init" {
+		if ast.IsExported(fn.Name()) || (fn.Name() == "init" && fn.Signature.Recv() == nil) {
 			roots = append(roots, fn)
 		}
 	}
